@@ -1411,13 +1411,20 @@ where
             },
             CharClassesStatus::LitCharEscape => CharClassesStatus::LitChar,
             CharClassesStatus::Normal => match chr {
-                'r' => match self.base.peek().map(RichChar::get_char) {
-                    Some('#') | Some('"') => {
+                'r' => {
+                    // `r"`, `r#"`, `r##"`, ... start a raw string; `r#ident` is a raw identifier.
+                    let mut next = self.base.peek().map(RichChar::get_char);
+                    while next == Some('#') {
+                        next = self.base.peek().map(RichChar::get_char);
+                    }
+                    self.base.reset_peek();
+                    if next == Some('"') {
                         char_kind = FullCodeCharKind::InString;
                         CharClassesStatus::RawStringPrefix(0)
+                    } else {
+                        CharClassesStatus::Normal
                     }
-                    _ => CharClassesStatus::Normal,
-                },
+                }
                 '"' => {
                     char_kind = FullCodeCharKind::InString;
                     CharClassesStatus::LitString
